@@ -746,6 +746,105 @@ theorem nameAt_bookLine {tbl : List (Char × Str)} (htb : TableOk tbl) (segs : L
     simp only [renderSegs, renderSeg, pickName]
     exact nameAt_escaped htb pre _ col
 
+/-! ## B''. trigraph replacement leaves a clean prefix alone -/
+
+theorem detri_cons_ne (c : Char) (l : Str) (hc : c ≠ '?') : detri (c :: l) = c :: detri l := by
+  match l with
+  | [] => simp [detri]
+  | [_] => simp [detri]
+  | c₂ :: x :: r => simp [detri, hc]
+
+theorem detri_q_ne (c₂ : Char) (l : Str) (hc : c₂ ≠ '?') : detri ('?' :: c₂ :: l) = '?' :: detri (c₂ :: l) := by
+  match l with
+  | [] => simp [detri]
+  | x :: r => simp [detri, hc]
+
+/-- a text without trigraph that does not end in `?` is not changed by phase 1, whatever follows -/
+theorem detri_append_clean (b : Str) : ∀ a : Str, triScan 0 a = false → a.getLast? ≠ some '?' →
+    detri (a ++ b) = a ++ detri b := by
+  intro a
+  induction a with
+  | nil => intro _ _; rfl
+  | cons c a' ih =>
+    intro h hl
+    have htail : triScan 0 a' = false := triScan_false_tail h
+    by_cases hc : c = '?'
+    · subst hc
+      match a', h, hl, htail, ih with
+      | [], _, hl, _, _ => simp at hl
+      | c₂ :: a'', h, hl, htail, ih =>
+        have hl' : (c₂ :: a'').getLast? ≠ some '?' := by
+          simpa [List.getLast?_cons_cons] using hl
+        by_cases hc₂ : c₂ = '?'
+        · subst hc₂
+          match a'', h, hl, hl', htail, ih with
+          | [], _, hl, _, _, _ => simp at hl
+          | x :: a''', h, _, hl', htail, ih =>
+            have hx : triChar x = none := by
+              cases hx : triChar x with
+              | none => rfl
+              | some t =>
+                have hxq : x ≠ '?' := by intro e; subst e; simp [triChar] at hx
+                simp [triScan, hxq, hx] at h
+            have := ih htail hl'
+            simp only [List.cons_append] at this ⊢
+            simp only [detri, hx, and_self, if_true]
+            rw [this]
+        · have := ih htail hl'
+          simp only [List.cons_append] at this ⊢
+          rw [detri_q_ne _ _ hc₂, this]
+    · have hl' : a' = [] ∨ a'.getLast? ≠ some '?' := by
+        cases a' with
+        | nil => exact Or.inl rfl
+        | cons y ys => right; simpa [List.getLast?_cons_cons] using hl
+      simp only [List.cons_append]
+      rw [detri_cons_ne _ _ hc]
+      rcases hl' with rfl | hl'
+      · rfl
+      · rw [ih htail hl']
+
+theorem renderStrL_getLast (tbl : List (Char × Str)) (s : Str) :
+    (renderStrL tbl s).getLast? ≠ some '?' := by
+  unfold renderStrL
+  have : ('"' :: (renderBody tbl s ++ ['"'])) = ('"' :: renderBody tbl s) ++ ['"'] := by simp
+  rw [this, List.getLast?_append]
+  simp
+
+/-- the escaped literal is read back under trigraph replacement in any context -/
+theorem cppStringLit_detri_render {tbl : List (Char × Str)} (ht : TableOk tbl)
+    (hq : tbl.lookup '?' = some ['\\', '?']) (s tail : Str) :
+    cppStringLit (detri (renderStrL tbl s ++ tail)) = some (s, detri tail) := by
+  rw [detri_append_clean tail _ (hasTrigraph_render_escaped ht hq s) (renderStrL_getLast tbl s)]
+  exact cppStringLit_render ht s (detri tail)
+
+theorem nameAtTri_escaped {tbl : List (Char × Str)} (htb : TableOk tbl)
+    (hq : tbl.lookup '?' = some ['\\', '?']) (pre rest name : Str) :
+    nameAtTri pre.length (pre ++ (renderStrL tbl name ++ rest)) = some name := by
+  unfold nameAtTri
+  rw [drop_length_append, cppStringLit_detri_render htb hq]
+  rfl
+
+/-- an escaped name place carries its name also under trigraph replacement -/
+theorem nameAtTri_bookLine {tbl : List (Char × Str)} (htb : TableOk tbl)
+    (hq : tbl.lookup '?' = some ['\\', '?']) (segs : List Seg) (tree col var : Str) (off : Nat)
+    (k : NameKind) (hs : nameSlot segs = some (off, k, true)) :
+    nameAtTri off (renderSegs tbl tree col var segs) = some (pickName k tree col) := by
+  rw [renderSegs_litPrefix]
+  unfold nameSlot at hs
+  generalize (litPrefix segs).1 = pre at *
+  generalize (litPrefix segs).2 = post at *
+  match post, hs with
+  | .treeEsc :: post', hs =>
+    simp only [Option.some.injEq, Prod.mk.injEq] at hs
+    obtain ⟨rfl, rfl, _⟩ := hs
+    simp only [renderSegs, renderSeg, pickName]
+    exact nameAtTri_escaped htb hq pre _ tree
+  | .colEsc :: post', hs =>
+    simp only [Option.some.injEq, Prod.mk.injEq] at hs
+    obtain ⟨rfl, rfl, _⟩ := hs
+    simp only [renderSegs, renderSeg, pickName]
+    exact nameAtTri_escaped htb hq pre _ col
+
 /-! ## F. small facts used by the theorems -/
 
 theorem intLitType_dec (v : Nat) :
